@@ -261,11 +261,15 @@ class Monitors:
 class Recorder:
     """Ground-truth log of the calls of the original callables (M1)."""
 
+    serial = 0
+
     def __init__(self, scratch, cap):
         self.calls = []
         self.cap = cap
         self.owner = os.getpid()
-        self.path = os.path.join(scratch, f"calls_{os.getpid()}_{id(self)}.jsonl")
+        # never reused: workers of an interrupted parallel DOE may keep writing after the parent collected the file
+        Recorder.serial += 1
+        self.path = os.path.join(scratch, f"calls_{os.getpid()}_{Recorder.serial}.jsonl")
         self.armed = True
 
     def log(self, name, kind, x, status):
@@ -460,6 +464,15 @@ def raw_bits(x):
     return np.asarray(x, dtype=float).tobytes()
 
 
+def same_key(a, b):
+    """``close`` with the identity of the database for zeros (0.0 and -0.0 are different keys)."""
+    if not close(a, b):
+        return False
+    a, b = np.asarray(a, dtype=float), np.asarray(b, dtype=float)
+    zeros = (a == 0.0) & (b == 0.0)
+    return bool(np.all(np.signbit(a[zeros]) == np.signbit(b[zeros])))
+
+
 def find(point, points):
     for i, q in enumerate(points):
         if close(point, q):
@@ -539,7 +552,12 @@ def run_case(case, rep, scratch=None, tag="generated"):
         keys_before, names_before = db_snapshot(problem)
         first_call = len(recorder.calls)
         first_term = len(mon.terminations)
-        recorder.cap = first_call + cap
+        if run["settings"].get("use_database", True):
+            recorder.cap = first_call + cap
+        else:
+            # nothing stops the optimiser without the database (known finding): abort as soon as the excess over the
+            # budget is beyond doubt (gradient probes included)
+            recorder.cap = first_call + 60 + 3 * (run["N"] + 1) * (n_total + 2)
         recorder.armed = True
         out = execute_run(problem, case, run, rep)
         recorder.collect_children()
@@ -729,6 +747,12 @@ def judge_run(case, index, run, problem, model, out, calls, terminations, keys_b
             and not parallel_doe:
         after_c = [canon(k, mask, round_ints) for k in keys_after]
         after_bits = {bits(k) for k in after_c}
+        key_multiplicity = {}
+        for k in after_c:
+            key_multiplicity[raw_bits(k)] = key_multiplicity.get(raw_bits(k), 0) + 1
+        if any(v > 1 for v in key_multiplicity.values()):
+            rep.observe("database-holds-a-complex-typed-and-a-real-typed-key-for-the-same-point",
+                        {"algo": run["algo"], "diff": case["diff"]})
         # a sample at which some function raised may legitimately leave no trace (parallel DOE drops it entirely)
         raised_pts = [np.array(c["x"]) for c in calls if c["status"] == "raised"]
         per = {}
@@ -746,13 +770,17 @@ def judge_run(case, index, run, problem, model, out, calls, terminations, keys_b
                                   witness, observed={"callable": name, "calls": len(pts)},
                                   expected={"new_keys": len(new_keys), "old_keys_without_value": missing})
                 continue
-            seen = set()
+            seen = {}
             for p in pts:
-                if raw_bits(p) in seen:
+                seen[raw_bits(p)] = seen.get(raw_bits(p), 0) + 1
+                # the database distinguishes a complex-typed key from the real-typed key of the same point (complex
+                # step): as many calls as there are such keys are legitimate
+                if seen[raw_bits(p)] > max(1, key_multiplicity.get(raw_bits(p), 0)):
                     rep.violation(f"C03:original-called-more-than-once-per-key:{lib}:{kind}", "2: once per database key",
-                                  witness, observed={"callable": name, "kind": kind, "point": p}, expected="one call")
+                                  witness, observed={"callable": name, "kind": kind, "point": p,
+                                                     "calls": seen[raw_bits(p)]},
+                                  expected={"keys_at_this_point": key_multiplicity.get(raw_bits(p), 0)})
                     break
-                seen.add(raw_bits(p))
                 if bits(p) not in after_bits and find(p, after_c) < 0 and find(p, raised_pts) < 0:
                     rep.violation(f"C03:evaluated-point-not-recorded:{lib}:{kind}", "2: evaluated points are database keys",
                                   witness, observed={"callable": name, "kind": kind, "point": p},
@@ -782,8 +810,10 @@ def judge_run(case, index, run, problem, model, out, calls, terminations, keys_b
             rep.violation(f"C03:exception-instead-of-result:stale-listener-of-previous-execution:{lib}",
                           "4/5: a repeated execution returns a result", witness,
                           observed=f"{type(exc).__name__}: {str(exc)[:300]}", expected="an OptimizationResult")
-        elif isinstance(exc, KeyError) and not finite_objective_recorded(problem, keys_after, names_after):
-            # optimum selection on a history without any finite objective value: subject of C04
+        elif isinstance(exc, KeyError) and (not finite_objective_recorded(problem, keys_after, names_after) or (
+                "array([]" in str(exc) and in_traceback(exc, "optimization_result.py"))):
+            # optimum selection returns an empty design when no feasible point has a comparable objective value
+            # (C04's defect "no-feasible-point-has-objective"): the selection rule is the subject of C04
             rep.observe("history-without-finite-objective-value-makes-result-construction-raise",
                         {"algo": run["algo"], "error": f"{type(exc).__name__}: {str(exc)[:100]}"})
         elif is_doe and samples_outside_bounds(out, pd):
@@ -913,14 +943,16 @@ def judge_doe(case, run, out, calls, keys_before, new_keys, term_names, db_on, m
     if duplicates:
         rep.count("doe_runs_with_duplicate_samples")
     raised = [np.array(c["x"]) for c in calls if c["status"] == "raised"]
-    fresh = [s for s in distinct if find(s, keys_before) < 0]
+    fresh = [s for s in distinct if not any(same_key(s, k) for k in keys_before)]
     if db_on:
         rep.count("clause3_order_checked")
         last = -1
         ok = True
         positions = []
         for k in new_keys:
-            pos = next((i for i in range(last + 1, len(fresh)) if close(k, fresh[i])), -1)
+            pos = next((i for i in range(last + 1, len(fresh)) if same_key(k, fresh[i])), -1)
+            if pos < 0:
+                pos = next((i for i in range(last + 1, len(fresh)) if close(k, fresh[i])), -1)
             positions.append(pos)
             if pos < 0:
                 ok = False
